@@ -517,6 +517,21 @@ def run(chk, prog):
                     l = op_base(t["d"])
                     if l is not None and len(op_place(t["d"])) == 1 and g.local_ty(l)["k"] == "u8" and len(t["ts"]) >= 2:
                         out |= set(v for v, _ in t["ts"])
+            # the same dispatch spelled as an if / else-if chain: one u8 value compared for equality with two or more constants
+            chains = {}
+            for b in g.reachable:
+                for st in g.stmts(b):
+                    if st["k"] == "assign" and st["rv"]["k"] == "binop" and st["rv"]["op"] == "Eq":
+                        x, y = st["rv"]["a"], st["rv"]["b"]
+                        for v, k in ((x, y), (y, x)):
+                            kv = const_int(k)
+                            vp = op_place(v)
+                            if kv is None or not vp or len(vp) != 1 or g.local_ty(vp[0])["k"] != "u8":
+                                continue
+                            chains.setdefault(canon(g, v), set()).add(kv)
+            for vals in chains.values():
+                if len(vals) >= 2:
+                    out |= vals
         return out
 
     pairs = [
